@@ -8,7 +8,7 @@ A program is a plain dict (JSON-able):
    "late": [names defined after their users], "order": [definition order of funcs in module a]}
 
   F = {"name", "kind": "memento" | "explicit" | "plain", "version": str (explicit only),
-       "module": "a" | "b" | "q" (q = module lib of a second package vfq), "lit", "pos_default", "kw_default", "set_const": [str...],
+       "module": "a" | "b" | "q" (q = module lib of a second package vfq) | "i" (the package's own __init__.py), "lit", "pos_default", "kw_default", "set_const": [str...],
        "tuple_const": [..], "lambda_const", "lambda_default", "inner_const", "inner_default",
        "comp_const", "reads": [dotted names], "calls": [{"target", "form", "arg"}],
        "cluster": None | str, "raises": bool}
@@ -71,6 +71,8 @@ def _call_expr(c, in_module, prog):
         return "%s_alias(%s)" % (t, a)
     if form == "wrapper":
         return "%s_w(%s)" % (t, a)
+    if form == "pkgattr":  # callee lives in the package's own __init__.py, reached as pkg.NAME
+        return "pkg.%s(%s)" % (t, a)
     if form == "xpkg":  # callee lives in module lib of the second package vfq, imported as qlib
         return "qlib.%s(%s)" % (t, a)
     if form == "hidden":
@@ -102,6 +104,10 @@ def render_func(f, prog, plain):
     sig = "x=%r, *, k=%r" % (f["pos_default"], f["kw_default"])
     if any(c["form"] == "arg" for c in f["calls"]):
         sig = "x=%r, fnarg=None, *, k=%r" % (f["pos_default"], f["kw_default"])
+    if f.get("sentinel_default"):
+        # defaults that cannot be encoded as argument values: a bare object() marker and an instance of a class without
+        # a __repr__ of its own (their repr contains a memory address)
+        sig += ", s1=_SENT, s2=_MARK"
     out = [_decor(f, plain) + "def %s(%s):" % (f["name"], sig)]
     out.append("    sys.audit('vf.body', %r, {'x': x, 'k': k})" % f["name"])
     out.append("    acc = [[%r, %r, x, k]]" % (f["name"], f["lit"]))
@@ -120,7 +126,13 @@ def render_func(f, prog, plain):
         out.append("        return w + %r" % f["inner_const"])
         out.append("    acc.append(inner())")
     for r in f["reads"]:
-        out.append("    acc.append(%s)" % r)
+        if r.endswith("?"):  # a name whose last attribute may not exist (yet)
+            out.append("    try:")
+            out.append("        acc.append(%s)" % r[:-1])
+            out.append("    except AttributeError:")
+            out.append("        acc.append('missing')")
+        else:
+            out.append("    acc.append(%s)" % r)
     for c in f["calls"]:
         if c["form"] == "innerdef":
             out.append("    def _inner_%s(v):" % c["target"])
@@ -141,6 +153,7 @@ def render_class(cname, attrs):
 
 
 HEADER = "import sys\nimport functools\n"
+SENTINELS = "class _Marker:\n    pass\n\n\n_SENT = object()\n_MARK = _Marker()\n"
 PASSTHRU = ("def passthru(f):\n    @functools.wraps(f)\n    def w(*a, **k):\n        return f(*a, **k)\n    return w\n")
 
 
@@ -151,23 +164,30 @@ def render(prog, plain=False, pkg="vfp"):
     has_q = any(f["module"] == "q" for f in prog["funcs"])
     if has_q:
         files["../vfq/__init__.py"] = ""
-    for mod in ("q", "b", "a"):
+    for mod in ("q", "i", "b", "a"):
         funcs = [f for f in prog["funcs"] if f["module"] == mod]
         if mod == "b" and not funcs and not prog.get("b_vars"):
             continue
-        if mod == "q" and not funcs:
+        if mod in ("q", "i") and not funcs:
             continue
         parts = [HEADER]
         if not plain:
             parts.append("import twosigma.memento as m\n")
         if mod == "a" and has_q:
             parts.append("from vfq import lib as qlib\n")
+        if mod == "a" and any(f["module"] == "i" for f in prog["funcs"]):
+            parts.append("import %s as pkg\n" % pkg)
         if mod == "a" and any(f["module"] == "b" for f in prog["funcs"]) and not prog.get("b_broken"):
             parts.append("from . import b\n")
         if mod == "b" and prog.get("b_broken"):
             # module b still exists but can no longer be imported (something it imports is gone); nobody imports it
             parts.append("import vfp_helper_that_was_removed\n")
         parts.append(PASSTHRU)
+        if any(f.get("sentinel_default") for f in funcs):
+            parts.append(SENTINELS)
+        if mod == "b":
+            for k, v in prog.get("b_vars", {}).items():  # module b's own variables (may reuse names of module a)
+                parts.append(render_var(k, v))
         if mod == "a":
             for k, v in prog.get("vars", {}).items():
                 if k not in prog.get("late", []):
@@ -198,7 +218,7 @@ def render(prog, plain=False, pkg="vfp"):
             for k in prog.get("late", []):
                 if k in prog.get("vars", {}):
                     parts.append(render_var(k, prog["vars"][k]))
-        files["%s.py" % mod if mod != "q" else "../vfq/lib.py"] = "\n".join(parts)
+        files[{"q": "../vfq/lib.py", "i": "__init__.py"}.get(mod, "%s.py" % mod)] = "\n".join(parts)
     return files
 
 
@@ -260,6 +280,10 @@ def edit_sites(prog):
             sites.append(("classattr", cn, a))
     for b in prog.get("bindings", {}):
         sites.append(("rebind", b, None))
+    for cn, attr in prog.get("addable_attrs", []):
+        sites.append(("addattr", cn, attr))
+    for v in prog.get("b_vars", {}):
+        sites.append(("bvar", v, None))
     return sites
 
 
@@ -312,6 +336,14 @@ def _apply_edit(prog, site):
     if kind == "var":
         p["vars"][where] = _bump(p["vars"][where])
         return p
+    if kind == "addattr":  # the class gets an attribute it did not have
+        if what in p["classes"][where]:
+            return None
+        p["classes"][where][what] = 5
+        return p
+    if kind == "bvar":
+        p["b_vars"][where] = _bump(p["b_vars"][where])
+        return p
     if kind == "varcopy":
         if p["vars"][where] == p["vars"][what]:
             return None
@@ -349,6 +381,10 @@ def changed_entities(p0, p1):
     classes = [c for c in p1.get("classes", {}) if p0.get("classes", {}).get(c) != p1["classes"][c]]
     binds = [b for b in p1.get("bindings", {}) if p0.get("bindings", {}).get(b) != p1["bindings"][b]]
     return funcs, vars_, classes, binds
+
+
+def changed_bvars(p0, p1):
+    return [v for v in p1.get("b_vars", {}) if p0.get("b_vars", {}).get(v, "<none>") != p1["b_vars"][v]]
 
 
 def key(prog):
